@@ -3,7 +3,9 @@ import os, json, re
 import vf
 
 PROP = "C17"
-THEOREMS = []  # filled below once the proofs exist (kept next to the statements in coq/Props/C17.v)
+THEOREMS = ["lifecycle_prefix", "one_claim", "grants_agree", "settlement_exact_attempt_and_bounds", "log_before_grant",
+            "fault_without_grant", "recover_eq_live", "recover_after_crash", "retry_from_retained",
+            "incremental_root_eq_rebuilt", "coordinator_root_eq_rebuilt"]
 PRE = ("From Coq Require Import List NArith.\nFrom Echo Require Import Base.Bytes Model.ExtAct.\n"
        "Import ListNotations.\nOpen Scope N_scope.\n")
 FAULT = {"n": "NoFault", "a": "FailAppend", "f": "FailFlush", "s": "FailAfterSync"}
@@ -557,7 +559,7 @@ def both(tag, cases, bins):
     for l in lines:
         a, o, c = split_impl(l)
         impl.append(a); oracle.append(o); checks.append(c)
-    vals = vf.coq_eval(tag, PRE, [to_term(c) for c in cases], timeout=1500)
+    vals = vf.coq_eval(tag, PRE, [to_term(c) for c in cases], shards=min(vf.NCPU, max(1, len(cases))), timeout=1500)
     model = [render_model(v) for v in vals]
     return impl, model, oracle, checks
 
